@@ -479,7 +479,7 @@ def serial_of_conflict_free_statement : Prop :=
 
 /-- a two-thread observation the checkers accept: thread 0 inserts a row in its own transaction, thread 1 reads the
     table before and after; tickets leave the order of the first read and the commit open -/
-def exCat : Catalog := [⟨"t", [⟨"k", .big, false, false⟩]⟩]
+def exCat : Catalog := [⟨"t", [⟨"k", .big, false, false⟩], []⟩]
 
 def exRender : Render := fun o =>
   match o with
